@@ -8,6 +8,13 @@ from . import events
 from .common import arg_ty, cname, find_loop_of, is_mut_ref, method, norm, self_ty
 
 
+MAP_ADTS = ("std::collections::HashMap", "std::collections::BTreeMap")
+
+
+def _map_call(name, meth):
+    return name in tuple("%s::%s" % (a, meth) for a in MAP_ADTS)
+
+
 class Roles:
     def __init__(self, lib):
         self.lib = lib
@@ -571,7 +578,7 @@ def pm8_start_protocol(r, R):
         d = de[0]
         g = guards_of(b, d.bb, within=_arm_blocks(R, "Empty"))
         args = [strip(term_of(b, x)) for x in d.node["args"]]
-        empty_map = any(x[0] == "call" and x[1] in ("std::collections::HashMap::new", "std::default::Default::default") for x in args)
+        empty_map = any(x[0] == "call" and (_map_call(x[1], "new") or x[1] == "std::default::Default::default") for x in args)
         oke = not g and b.dominates(tp_e.bb, d.bb) and empty_map and any(_same_event(R, x, "Empty") for x in args)
         why = "after the tag parser, unconditionally, with an empty snapshot (every Mandatory child of an existing element is demoted)" if oke else \
             "Empty-arm demotion: guards=%s, empty snapshot=%s" % ([guard_s(x) for x in g], empty_map)
@@ -661,7 +668,7 @@ def _snapshot_flag(r, R):
 def pm9_snapshot(r, R):
     """snapshot = {name -> count} of exactly the Mandatory children"""
     sn = R.sn
-    ins = [c for c in sn.calls() if cname(c.node) == "std::collections::HashMap::insert"]
+    ins = [c for c in sn.calls() if _map_call(cname(c.node), "insert")]
     okn = len(ins) == 1
     if not okn:
         ob(r, "PM9.snapshot-inserts", ("C01", "C03"), sn.name, False, "expected one insert into the snapshot, found %d" % len(ins), mir.line_of(sn.span), "PM9|count")
@@ -725,7 +732,7 @@ def pm10_demotion(r, R):
             par["root"] = i + 1
         elif "BytesStart" in s:
             par["event"] = i + 1
-        elif t.get("adt") == "std::collections::HashMap":
+        elif t.get("adt") in MAP_ADTS:
             par["snap"] = i + 1
     if set(par) != {"root", "event", "snap"}:
         ob(r, "PM10.anchor", ("C01", "C03"), ds.name, False, "demotion step parameters not recognised: %s" % par, mir.line_of(ds.span), "PM10|anchor")
@@ -753,15 +760,15 @@ def pm10_demotion(r, R):
             call_g = [x for x in rest if x[0] == "call"]
             if len(rest) == 2 and len(enum_g) == 1 and len(call_g) == 1:
                 e, cg = enum_g[0], call_g[0]
-                if e[1] == "std::option::Option" and e[3] == "Some" and e[2][0] == "call" and e[2][1] == "std::collections::HashMap::get" and \
+                if e[1] == "std::option::Option" and e[3] == "Some" and e[2][0] == "call" and _map_call(e[2][1], "get") and \
                         strip(e[2][2][0]) == ("arg", par["snap"]) and cg[1] == "std::cmp::PartialEq::eq" and cg[3] is True:
                     a, b_ = cg[2]
                     sides = [a, b_]
                     cnt = [x for x in sides if x[0] == "call" and x[1].endswith("Element::count") and _is_loop_item(ds, x[2][0])]
-                    snapv = [x for x in sides if x[0] == "proj" and x[1][0] == "call" and x[1][1] == "std::collections::HashMap::get"]
+                    snapv = [x for x in sides if x[0] == "proj" and x[1][0] == "call" and _map_call(x[1][1], "get")]
                     if len(cnt) == 1 and len(snapv) == 1:
                         kind = "unchanged"
-                if e[1] == "necessity::Necessity" and e[3] == "Mandatory" and _is_loop_item(ds, e[2]) and cg[1] == "std::collections::HashMap::contains_key" and cg[3] is False and \
+                if e[1] == "necessity::Necessity" and e[3] == "Mandatory" and _is_loop_item(ds, e[2]) and _map_call(cg[1], "contains_key") and cg[3] is False and \
                         strip(cg[2][0]) == ("arg", par["snap"]):
                     kind = "absent"
         kinds.setdefault(kind, []).append((c, g))
@@ -959,7 +966,26 @@ def _entry_points(R):
 
 
 def _extraction_signature(R, b, el_call):
-    """how the public entry turns the wrapper returned by the event loop into its result"""
+    """how the public entry turns the wrapper returned by the event loop into its result
+    (inline, or through one crate helper that receives the event loop's Ok value)"""
+    if not [c for c in b.calls() if cname(c.node) == "core::slice::first"]:
+        for c in b.calls():
+            hp = c.node["callee"].get("path")
+            if c.node["callee"].get("local") and hp in R.lib.bodies and hp != R.el.name and c.node["args"]:
+                org = b.origins(c.node["args"][0], transparent=lambda n: cname(n) == "std::ops::Try::branch")
+                returned = c.node["dest"]["l"] == 0 or any(("call", c) in b.origins(s.node["rv"]["op"]) for s in b.assigns()
+                                                              if s.node["place"]["l"] == 0 and s.node["rv"]["k"] == "use")
+                if ("call", el_call) in org and returned:
+                    h = R.lib.bodies[hp]
+                    sig = _extraction_signature_in(R, h, None)
+                    sig["helper"] = hp
+                    return sig
+    sig = _extraction_signature_in(R, b, el_call)
+    sig["helper"] = None
+    return sig
+
+
+def _extraction_signature_in(R, b, el_call):
     sig = {}
     firsts = [c for c in b.calls() if cname(c.node) == "core::slice::first"]
     rcs = [c for c in b.calls() if cname(c.node).endswith("Element::remove_child")]
@@ -974,10 +1000,10 @@ def _extraction_signature(R, b, el_call):
         nm = strip(term_of(b, rcs[0].node["args"][1]), mir.VALUE_PRESERVING)
         sig["removes_first_childs_name"] = bool(firsts) and ("call", firsts[0]) in b.origins(rcs[0].node["args"][1], transparent=lambda n: n is not firsts[0].node)
         recv = b.origins(rcs[0].node["args"][0], transparent=lambda n: cname(n) == "std::ops::Try::branch")
-        sig["from_event_loop_result"] = ("call", el_call) in recv
+        sig["from_event_loop_result"] = (("call", el_call) in recv) if el_call is not None else any(o[0] == "arg" and o[1] == 1 for o in recv)
         if firsts:
-            frecv = b.origins(firsts[0].node["args"][0], transparent=lambda n: n is not el_call.node)
-            sig["first_of_event_loop_result"] = ("call", el_call) in frecv
+            frecv = b.origins(firsts[0].node["args"][0], transparent=lambda n: el_call is None or n is not el_call.node)
+            sig["first_of_event_loop_result"] = (("call", el_call) in frecv) if el_call is not None else any(o[0] == "arg" and o[1] == 1 for o in frecv)
     return sig
 
 
@@ -1028,7 +1054,10 @@ def pm13_extend(r, R):
     wi = strip(term_of(ini, icall.node["args"][1]))
     okf = wi[0] == "call" and wi[1].endswith("Element::new") and not [c for c in ini.calls() if cname(c.node).endswith("Element::add_unique_child")]
     ob(r, "PM13.initial-wrapper", ("C01", "C03", "C06"), ini.name, okf, "the initial parse starts from a fresh empty wrapper" if okf else "initial parse starts from %s" % term_s(wi)[:60], icall, "PM13|initial")
-    same = isig == sig and all(v is True or isinstance(v, int) and not isinstance(v, bool) for v in sig.values()) and sig.get("ok_sites") == 1
+    def _good(sg):
+        return all(v is True or (isinstance(v, int) and not isinstance(v, bool)) for k, v in sg.items() if k != "helper") and sg.get("ok_sites") == 1 and \
+            sg.get("first") == 1 and sg.get("remove_child") == 1
+    same = _good(isig) and _good(sig) and {k: v for k, v in isig.items() if k != "helper"} == {k: v for k, v in sig.items() if k != "helper"}
     ob(r, "PM13.same-root-extraction", P, "%s / %s" % (ini.name, ext.name), same,
        "both entries return wrapper.remove_child(first child's name).into_inner_t() of the event loop's Ok value, after `?`" if same else
        "root extraction differs or is not recognised: %s vs %s" % (isig, sig), call, "PM13|extract")
